@@ -2,5 +2,6 @@
 //! protocol.  This module never imports `tevec::prelude` (it shadows Iterator methods).
 pub mod proto;
 pub mod rng;
+pub mod trace;
 pub use proto::*;
 pub use rng::*;
